@@ -182,6 +182,103 @@ theorem isAligned_sound (m o : Mesh) (t : Rat) (h : isAligned m o t = true) (a :
   · exact aligned_tol_sound _ _ _ hc (by simpa using g2)
   · exact aligned_tol_sound _ _ _ hc (by simpa using g3)
 
+
+/-- Reflection `x ↦ A − x` (what a quarter turn does to one of the two rotated axes) keeps an
+interval a whole number of cells into, and a whole number of cells long within, the image. -/
+theorem reflect_keeps_lattice_axis (L H l h A : Rat) (n z w : Int) (hn : 0 < n) (hLH : L < H)
+    (hz : l - L = (z : Rat) * ((H - L) / n)) (hw : h - l = (w : Rat) * ((H - L) / n)) (hw0 : 0 < w) :
+    ∃ z' : Int,
+      min (A - l) (A - h) - min (A - L) (A - H) = (z' : Rat) * ((max (A - L) (A - H) - min (A - L) (A - H)) / n) ∧
+      max (A - l) (A - h) - min (A - l) (A - h) = (w : Rat) * ((max (A - L) (A - H) - min (A - L) (A - H)) / n) := by
+  obtain ⟨z', h1, h2⟩ := scale_keeps_lattice_axis L H l h (A / 2) (-1) n z w hn hLH (by norm_num) hz hw hw0
+  refine ⟨z', ?_, ?_⟩
+  · have e : ∀ x : Rat, A / 2 + -1 * (x - A / 2) = A - x := fun x => by ring
+    simpa only [e] using h1
+  · have e : ∀ x : Rat, A / 2 + -1 * (x - A / 2) = A - x := fun x => by ring
+    simpa only [e] using h2
+
+/-- the translation part `x ↦ A + x` of a quarter turn likewise -/
+theorem shift_keeps_lattice_axis (L H l h A : Rat) (n z w : Int) (hLH : L < H)
+    (hz : l - L = (z : Rat) * ((H - L) / n)) (hw : h - l = (w : Rat) * ((H - L) / n)) (hw0 : 0 < w) (hn : 0 < n) :
+    min (A + l) (A + h) - min (A + L) (A + H) = (z : Rat) * ((max (A + L) (A + H) - min (A + L) (A + H)) / n) ∧
+    max (A + l) (A + h) - min (A + l) (A + h) = (w : Rat) * ((max (A + L) (A + H) - min (A + L) (A + H)) / n) := by
+  have hnq : (0 : Rat) < (n : Rat) := by exact_mod_cast hn
+  have hwq : (0 : Rat) < (w : Rat) := by exact_mod_cast hw0
+  have hc : 0 < (H - L) / (n : Rat) := div_pos (by linarith) hnq
+  have hlh : l < h := by nlinarith
+  rw [min_eq_left (by linarith : A + l ≤ A + h), max_eq_right (by linarith : A + l ≤ A + h),
+    min_eq_left (by linarith : A + L ≤ A + H), max_eq_right (by linarith : A + L ≤ A + H)]
+  constructor
+  · have : A + H - (A + L) = H - L := by ring
+    rw [this]; linarith
+  · have : A + H - (A + L) = H - L := by ring
+    rw [this]; linarith
+
+/-- Plane selection keeps exactly the subregions whose closed extent along the removed axis
+contains the centre of the selected cell (names, in order). -/
+theorem sel_plane_keeps (m m' : Mesh) (ax : Nat) (x : Option Rat) (h : selPlane m ax x = .ok m') :
+    ∃ c i, selConvert m ax (x.getD (m.region.center.getD ax 0)) = .ok (c, i) ∧
+      m'.subs.map (·.1) = (m.subs.filter fun p => !(decide (p.2.hi ax < c) || decide (c < p.2.lo ax))).map (·.1) := by
+  unfold selPlane at h
+  split at h
+  · cases h
+  · split at h
+    · cases h
+    · rename_i c i hconv
+      split at h
+      · cases h
+      · split at h
+        · cases h
+        · rename_i r' _ m0 _
+          obtain ⟨_, hnames, _, _, _, _⟩ := set_accepts m0 m' _ h
+          refine ⟨c, i, hconv, ?_⟩
+          rw [hnames, List.map_map]
+          rfl
+
+/-- Range selection keeps exactly the subregions with positive overlap with the kept slab. -/
+theorem sel_range_keeps (m m' : Mesh) (ax : Nat) (a b : Rat) (h : selRange m ax a b = .ok m') :
+    ∃ c0 i0 c1 i1, selConvert m ax (min a b) = .ok (c0, i0) ∧ selConvert m ax (max a b) = .ok (c1, i1) ∧
+      m'.subs.map (·.1) = (m.subs.filter fun p =>
+        !(decide (c1 + m.cellAt ax / 2 ≤ p.2.lo ax) || decide (p.2.hi ax ≤ c0 - m.cellAt ax / 2))).map (·.1) := by
+  unfold selRange at h
+  split at h
+  · cases h
+  · split at h
+    · cases h
+    · cases h
+    · rename_i c0 i0 c1 i1 h0 h1
+      split at h
+      · cases h
+      · split at h
+        · cases h
+        · rename_i r' _ m0 _
+          obtain ⟨_, hnames, _, _, _, _⟩ := set_accepts m0 m' _ h
+          refine ⟨c0, i0, c1, i1, h0, h1, ?_⟩
+          rw [hnames, List.map_map]
+          rfl
+
+/-- the mesh extracted for a named subregion has exactly that subregion as its region -/
+theorem getName_region (m g : Mesh) (name : String) (h : getName m name = .ok g) :
+    ∃ p, m.subs.find? (fun p => p.1 == name) = some p ∧ g.region = p.2 := by
+  unfold getName at h
+  split at h
+  · cases h
+  · rename_i p hp
+    refine ⟨p, hp, ?_⟩
+    unfold Mesh.mkCell? at h
+    split at h
+    · cases h
+    · split at h
+      · cases h
+      · split at h
+        · cases h
+        · split at h
+          · cases h
+          · split at h
+            · cases h
+            · injection h with h; subst h; rfl
+
+
 /-- non-vacuity: two concrete meshes offset by two cells are aligned; offset by half a cell they are not -/
 example : isAligned ⟨⟨[0, 0], [4, 2], ["x", "y"], ["m", "m"], 0⟩, [4, 2], "", []⟩
                     ⟨⟨[2, 1], [5, 2], ["x", "y"], ["m", "m"], 0⟩, [3, 1], "", []⟩ = true := by decide +kernel
